@@ -28,3 +28,6 @@ RULES = ["DIM.D1", "DIM.D2", "DIM.D3", "DIM.LOG", "DIM.SHAPE", "DIM.ABS"]
 def run(P, R, tier):
     n, rets = dimrun.route(P, R, ALL, rules=RULES)
     R.floor("DIM obligations", n, 150)
+
+
+EXPLANATION += ' Also: (DIM.ABS) no dimensioned quantity is compared with an absolute literal or tested with an absolute tolerance (np.isclose / allclose defaults).'
